@@ -53,6 +53,13 @@ def wrap_function(module, name, make):
 
 
 def wrap_method(cls, name, make):
+    if name not in cls.__dict__:
+        # inherited method: install the wrapper on this class only
+        func = getattr(cls, name)
+        wrapper = functools.wraps(func)(make(func))
+        wrapper.__pvmon_original__ = func
+        setattr(cls, name, wrapper)
+        return func
     original = cls.__dict__[name]
     kind = None
     func = original
